@@ -32,4 +32,51 @@ def encodeAscii (s : Bytes) : R Bytes :=
 /-- `s.encode("utf-8")` for a `str` given by its UTF-8 bytes (the identity on the representation) -/
 def encodeUtf8 (s : Bytes) : R Bytes := .ok s
 
+/-- `out[k1][k2] = v` on `out = collections.defaultdict(dict)`: `out[k1]` looks the inner dict up
+    (`__missing__` stores a new `{}` under `k1`, at the end, when there is none), then `[k2] = v` sets
+    the item in it; both dicts keep insertion order and an existing key keeps its place
+    (`dictSet` / `dictGet` of `Primitives.lean`). -/
+def ddSet2 {κ₁ κ₂ ν : Type} [BEq κ₁] [BEq κ₂] (out : List (κ₁ × List (κ₂ × ν))) (k1 : κ₁) (k2 : κ₂) (v : ν) :
+    List (κ₁ × List (κ₂ × ν)) :=
+  dictSet out k1 (dictSet ((dictGet out k1).getD []) k2 v)
+
+/-- `tmpl % n` for a struct format template with one `%d` / `%s` directive that is used as a repeat
+    count (`">%si"`, `">i%si"`), as `struct` then reads it: `n` copies of the format character that
+    follows the directive (`"3i"` is `"iii"`, `"0i"` is nothing).  A negative `n` formats to `">-3i"`,
+    which `struct` rejects (`struct.error`, raised by the `struct` call that receives the format);
+    so is a directive that is not followed by a format character. -/
+def expandFmt : List Char → Int → Option (List Char)
+  | [], _ => none
+  | '%' :: k :: c :: rest, n =>
+    if (k = 'd' ∨ k = 's') ∧ 0 ≤ n ∧ c ≠ '%' ∧ ¬ rest.contains '%' then some (List.replicate n.toNat c ++ rest) else none
+  | c :: rest, n => if c = '%' then none else (expandFmt rest n).map (c :: ·)
+
+def expandFmtR (tmpl : List Char) (n : Int) : R (List Char) :=
+  match expandFmt tmpl n with
+  | none => .error .structError
+  | some f => .ok f
+/-- `twisted.python.compat.nativeString(s)` for a `str` s (given by its UTF-8 bytes): checks that s is
+    ASCII (`s.encode("ascii")`, UnicodeEncodeError otherwise) and returns s itself. -/
+def nativeStringR (s : Bytes) : R Bytes :=
+  if isAscii s then .ok s else .error .unicodeEncode
+/-- A Python generator run to its end: the items it yielded, then the value it finished with or
+    the exception that ended the iteration (items yielded before the exception are kept). -/
+abbrev Y (ι α : Type) := List ι × R α
+
+def Y.pure {ι α : Type} (a : α) : Y ι α := ([], .ok a)
+
+def Y.bind {ι α β : Type} (x : Y ι α) (f : α → Y ι β) : Y ι β :=
+  match x with
+  | (ys, .error e) => (ys, .error e)
+  | (ys, .ok a) => (ys ++ (f a).1, (f a).2)
+
+instance {ι : Type} : Monad (Y ι) where
+  pure := Y.pure
+  bind := Y.bind
+
+/-- `yield i` -/
+def yieldY {ι : Type} (i : ι) : Y ι Unit := ([i], .ok ())
+
+/-- a fallible call inside a generator: nothing is yielded; an exception ends the run -/
+def liftR {ι α : Type} (x : R α) : Y ι α := ([], x)
 end Afkak.Wire
